@@ -126,6 +126,10 @@ def fuse_comprehensions(t: "T") -> "T":
     kw = {k: fuse_comprehensions(v) for k, v in t.kw.items()}
     if t.op == "elem" and args and args[0].op == "comp" and len(args[0].args) == 2:
         return args[0].args[0]
+    # component k of an element of zip(A0, A1, ...) is an element of Ak
+    if t.op == "item" and isinstance(t.name, int) and args and args[0].op == "elem" and args[0].args[0].op == "call" and \
+            args[0].args[0].name == "zip" and t.name < len(args[0].args[0].args):
+        return fuse_comprehensions(T("elem", None, [args[0].args[0].args[t.name]], node=t.node))
     # element k of a comprehension over a LITERAL list:  [f(x) for x in [a, b, c]][1] == f(b)
     if t.op == "item" and isinstance(t.name, int) and args and args[0].op == "comp" and len(args[0].args) == 2 and \
             args[0].args[1].op in ("list", "tuple") and 0 <= t.name < len(args[0].args[1].args):
